@@ -118,7 +118,7 @@ Section Lossless.
       destruct (ce_roles e) as [|r rs]; [discriminate|]. apply N.eqb_eq in Hi2. subst r. now exists rs.
   Qed.
 
-  Theorem lossless : forall els m, from_term tbl (TTuple els) = COk m ->
+  Theorem lossless : forall els m, from_term_c tbl (TTuple els) = COk m ->
     exists z, els = TInt z :: tl els /\ (0 <= z <= 255)%Z /\
       match m with
       | CGeneric ty fs => ty = Z.to_N z /\ fs = tl els /\ to_term tbl m = TTuple els /\ into_term tbl m = TTuple els
@@ -126,7 +126,7 @@ Section Lossless.
                       to_term tbl m = TTuple (canon_els e els) /\ into_term tbl m = TTuple (canon_els e els)
       end.
   Proof.
-    intros els m H. unfold from_term in H.
+    intros els m H. unfold from_term_c in H.
     destruct els as [|e0 rest]; [discriminate|]. destruct e0; try discriminate.
     destruct ((0 <=? z) && (z <=? 255))%Z eqn:Ez; [|discriminate]. apply andb_prop in Ez as [Ez1 Ez2].
     apply Z.leb_le in Ez1, Ez2. exists z. split; [reflexivity|]. split; [lia|].
